@@ -75,5 +75,5 @@ GraySeq(k) == IF k = 0 THEN <<0>>
               ELSE LET g == GraySeq(k - 1) h == Pow2(k - 1)
                    IN g \o [i \in 1..h |-> h + g[h + 1 - i]]
 GrayEnc(b, w) == GraySeq(w)[b + 1]
-GrayDec(g, w) == CHOOSE b \in 0..(Pow2(w) - 1) : GraySeq(w)[b + 1] = g
+GrayDec(g, w) == LET code == GraySeq(w) IN CHOOSE b \in 0..(Pow2(w) - 1) : code[b + 1] = g
 ====
